@@ -249,7 +249,56 @@ func classifyCuts(c *Ctx, res *report.Result, rule, owner string, cb, top *ssa.F
 						if _, isMI := ev.(*ssa.MakeInterface); isMI {
 							known = true
 						}
+						// where the error comes from: a step of the translation itself (a function of this package or
+						// visit.Assign, called directly), or the 'unhandled type' error of a type switch's default arm.
+						// An error from anything else - a budget, a size limit, a deadline - stops the walk for a
+						// reason the message did not give: the interceptor only logs translator errors and forwards
+						// the message as it is, so everything not yet visited leaves untranslated
+						origin := ""
 						if known {
+							var oc *ssa.Call
+							switch x := ev.(type) {
+							case *ssa.Extract:
+								oc, _ = x.Tuple.(*ssa.Call)
+							case *ssa.Call:
+								oc = x
+							}
+							okOrigin := false
+							if oc != nil {
+								if sc := flow.StaticCallee(&oc.Call); sc != nil && sc.Pkg != nil {
+									pp := sc.Pkg.Pkg.Path()
+									switch {
+									case pp == cb.Pkg.Pkg.Path() && sc.Parent() == nil:
+										okOrigin = true
+									case strings.HasSuffix(pp, "/visit") && sc.Name() == "Assign":
+										okOrigin = true
+									case (pp == "fmt" || pp == "errors") && (sc.Name() == "Errorf" || sc.Name() == "New"):
+										for _, g := range gs {
+											if ex, isE := g.Cond.(*ssa.Extract); isE && ex.Index == 1 && !g.Side {
+												if ta, isT := ex.Tuple.(*ssa.TypeAssert); isT && ta.CommaOk {
+													okOrigin = true
+												}
+											}
+										}
+										origin = "a fresh error outside the default arm of a type switch"
+									default:
+										origin = "a call of " + shortFn(sc)
+									}
+								} else {
+									origin = "a call through a function value"
+								}
+							} else if _, isMI := ev.(*ssa.MakeInterface); isMI {
+								okOrigin = true
+							} else {
+								origin = "a value of unknown origin"
+							}
+							if okOrigin {
+								origin = ""
+							}
+						}
+						if known && origin != "" {
+							res.Viol(rule, construct, pos, "visit.Stop is returned with an error that does not come from translating the visited value ("+origin+"): a walk cut short by a budget, a size limit or a deadline leaves every field not yet visited untranslated, and the interceptor only logs a translator's error and forwards the message as it is", gtxt...)
+						} else if known {
 							res.Hold(rule, construct, pos, "class error: Stop is returned with an error that is known to be non-nil on this path")
 						} else {
 							res.Viol(rule, construct, pos, "visit.Stop is returned with an error value that is not known to be non-nil here (the test of the error is missing or inverted): with a nil error the walk is silently truncated after the first element", gtxt...)
